@@ -1086,6 +1086,7 @@ def run(ctx: Ctx) -> None:
 
 # ---------------------------------------------------------------------------
 WITNESSES = [
+    {"name": "seeded-C10-11", "file": "core/mdo_functions/_operations.py", "old": "from numpy import add as _add\nfrom numpy import atleast_2d\nfrom numpy import ndarray\nfrom numpy import subtract as _subtract\nfrom numpy import tile\n\nif TYPE_CHECKING:\n    from gemseo.core.mdo_functions.mdo_function import MDOFunction\n    from gemseo.core.mdo_functions.mdo_function import OperatorType\n    from gemseo.core.mdo_functions.mdo_function import OutputType\n    from gemseo.typing import NumberArray\n\n\nclass _OperationFunctionMaker(metaclass=GoogleDocstringInheritanceMeta):\n    \"\"\"A helper to create a function applying an operation to another function.\"\"\"\n\n    __SUM_SUBTRACTION_PATTERN: Final[Pattern[str]] = re_compile(\n        r\"\"\"^([^\\(].*[+-].*[^\\)])$| # Sum/subtraction with one or many parentheses\n            ^(.+[+-].*[^\\)])$| # Sum/subtraction with one or many end parentheses\n            ^([^\\(].*[+-].+)$ # Sum/subtraction with one or many starting parentheses\"\"\"\n    )\n    \"\"\"The pattern used to search for a sum or subtraction in a function expression.\"\"\"\n\n    def __init__(\n        self,\n        cls: type[MDOFunction],\n        first_operand: MDOFunction,\n        second_operand: MDOFunction | ndarray | Number,\n        operator: OperatorType,\n        operator_repr: str,\n    ) -> None:\n        \"\"\"\n        Args:\n            cls: The type of :class:`.MDOFunction`.\n            first_operand: The other function or number.\n            second_operand: The operator as a function pointer.\n            operator: The operator.\n            operator_repr: The representation of the operator.\n\n        Raises:\n            TypeError: When the second operand is\n                neither an :class:`.MDOFunction` nor a ``Number``.\n            RuntimeError: When one operand expects normalized inputs\n                while the other does not.\n        \"\"\"  # noqa: D205, D212, D415\n        f_type = \"\"\n        expr = \"\"\n        input_names = []\n        jac = None\n        self._first_operand = first_operand\n        self._second_operand = second_operand\n        self._second_operand_is_number = isinstance(second_operand, (Number, ndarray))\n        self._second_operand_is_func = isinstance(second_operand, cls)\n        self._operator = operator\n        self._operator_repr = operator_repr\n        if not self._second_operand_is_number and not self._second_operand_is_func:\n            msg = (\n                f\"Unsupported {operator_repr} operator \"\n                f\"for MDOFunction and {type(self._second_operand)}.\"\n            )\n            raise TypeError(msg)\n\n        if (\n            self._second_operand_is_func\n            and self._first_operand.expects_normalized_inputs\n            != self._second_operand.expects_normalized_inputs\n        ):\n            msg = (\n                \"The operation cannot be performed because \"\n                \"one function expects normalized inputs \"\n                \"while the other does not.\"\n            )\n            raise RuntimeError(msg)\n\n        if self._second_operand_is_func:\n            self._second_operand_expr = self._second_operand.expr\n            self._second_operand_name = self._second_operand.name\n        else:\n            self._second_operand_expr = str(self._second_operand)\n            self._second_operand_name = self._second_operand_expr\n\n        if self._second_operand_is_func:\n            if self._first_operand.has_jac and self._second_operand.has_jac:\n                jac = self._compute_operation_jacobian\n\n            if self._first_operand.expr and self._second_operand.expr:\n                expr = self._compute_expr()\n\n            if self._first_operand.input_names and self._second_operand.input_names:\n                input_names = sorted(\n                    set(\n                        self._first_operand.input_names\n                        + self._second_operand.input_names\n                    )\n                )\n\n            if self._first_operand.f_type:\n                f_type = self._first_operand.f_type\n            elif self._second_operand.f_type:\n                f_type = self._second_operand.f_type\n\n        else:\n            input_names = self._first_operand.input_names\n            f_type = self._first_operand.f_type\n            if self._first_operand.expr:\n                expr = self._compute_expr()\n\n            if self._first_operand.has_jac:\n                jac = self._compute_operation_jacobian\n\n        self.function = cls(\n            self._compute_operation,\n            self._compute_name(),\n            f_type=f_type,\n            jac=jac,\n            expr=expr,\n            input_names=input_names,\n            dim=self._first_operand.dim,\n            output_names=self._first_operand.output_names,\n            original_name=first_operand.original_name\n            if self._second_operand_is_number\n            else \"\",\n            with_normalized_inputs=self._first_operand.expects_normalized_inputs,\n        )\n\n    @classmethod\n    def __rewrite_expression(cls, expression: str) -> str:\n        \"\"\"Add grouping parentheses to an expression.\n\n        The expression is modified only if it includes a sum or subtraction.\n\n        Args:\n            expression: The expression to be checked and potentially rewritten.\n\n        Returns:\n            The rewritten expression, if the original one included a sum or subtraction,\n            otherwise return the unchanged expression.\n        \"\"\"\n        is_sum_subtraction = bool(\n            search(\n                cls.__SUM_SUBTRACTION_PATTERN,\n                expression,\n            )\n        )\n        return f\"({expression})\" if is_sum_subtraction else expression\n\n    def _compute_expr(self) -> str:\n        \"\"\"Compute the string expression of the function.\n\n        Returns:\n            The string expression of the function.\n        \"\"\"\n        expr_1 = self._first_operand.expr\n        expr_2 = self._second_operand_expr\n        if self._operator_repr in {\"*\", \"/\"}:\n            expr_1 = self.__rewrite_expression(expr_1)\n            expr_2 = self.__rewrite_expression(expr_2)\n        elif self._operator_repr == \"-\":\n            expr_2 = self.__rewrite_expression(expr_2)\n        return self.get_string_representation(expr_1, self._operator_repr, expr_2)\n\n    def _compute_name(self) -> str:\n        \"\"\"Compute the name of the function.\n\n        Given two functions named ``\"f\"`` and ``\"g\"``,\n        the name of the function summing them will be ``\"[f+g]\"``.\n\n        Returns:\n            The name of the function.\n        \"\"\"\n        return self.get_string_representation(\n            self._first_operand.name,\n            self._operator_repr,\n            self._second_operand_name,\n            True,\n        )\n\n    def _compute_operation(self, input_value: NumberArray) -> OutputType:\n        \"\"\"Compute the result of the operation..\n\n        Args:\n            input_value: The input value.\n\n        Returns:\n            The result of the operation.\n        \"\"\"\n        second_operand = self._second_operand\n        if self._second_operand_is_func:\n            second_operand = second_operand.func(input_value)\n\n        return self._operator(self._first_operand.func(input_value), second_operand)\n\n    @abstractmethod\n    def _compute_operation_jacobian(self, input_value: NumberArray) -> OutputType:\n        \"\"\"Compute the Jacobian of the operation..\n\n        Args:\n            input_value: The input value.\n\n        Returns:\n            The Jacobian of the operation.\n        \"\"\"\n\n    @staticmethod\n    def get_string_representation(\n        operand_1: str,\n        operator: str,\n        operand_2: str | float,\n        use_brackets: bool = False,\n    ) -> str:\n        \"\"\"Return the string representation of an operation between two operands.\n\n        Args:\n            operand_1: The first operand.\n            operator: The operator applying to both operands.\n            operand_2: The second operand.\n            use_brackets: Whether to add brackets to the expression.\n\n        Returns:\n            The string expression of the sum of the operands.\n        \"\"\"\n        return (\n            f\"[{operand_1}{operator}{operand_2}]\"\n            if use_brackets\n            else f\"{operand_1}{operator}{operand_2}\"\n        )\n\n\nclass _AdditionFunctionMaker(_OperationFunctionMaker):\n    \"\"\"A helper to create a function summing a function with a constant or a function.\n\n    If the function operands have a Jacobian, the function will support automatic\n    differentiation.\n    \"\"\"\n\n    def __init__(\n        self,\n        cls: type[MDOFunction],\n        first_operand: MDOFunction,\n        second_operand: MDOFunction | Number,\n        inverse: bool = False,\n    ) -> None:\n        \"\"\"\n        Args:\n            inverse: Whether to apply the inverse operation, i.e. subtraction.\n        \"\"\"  # noqa: D205, D212, D415\n        super().__init__(\n            cls,\n            first_operand,\n            second_operand,\n            _subtract if inverse else _add,\n            \"-\" if inverse else \"+\",\n        )\n\n    def _compute_operation_jacobian(self, input_value: NumberArray) -> NumberArray:\n        if self._second_operand_is_number:\n            return self._first_operand._jac(input_value)\n\n        if self._operator_repr == \"+\":\n            return self._first_operand._jac(input_value) + self._second_operand._jac(\n                input_value\n            )\n        return self._first_operand._jac(input_value) - self._second_operand._jac(\n            input_value\n        )\n\n\nclass _MultiplicationFunctionMaker(_OperationFunctionMaker):\n    \"\"\"A helper to create a function multiplying a function by a number or a function.\n\n    If the function operands have a Jacobian, the function will support automatic\n    differentiation.\n    \"\"\"\n\n    def __init__(\n        self,\n        cls: type[MDOFunction],\n        first_operand: MDOFunction,\n        second_operand: MDOFunction | OutputType,\n        inverse: bool = False,\n    ) -> None:\n        \"\"\"\n        Args:\n            inverse: Whether to apply the inverse operation, i.e. subtraction.\n        \"\"\"  # noqa: D205, D212, D415\n        super().__init__(\n            cls,\n            first_operand,\n            second_operand,\n            numpy.divide if inverse else numpy.multiply,\n            \"/\" if inverse else \"*\",\n        )\n\n    def _compute_expr(self) -> str:\n        if self._second_operand_is_number and self._operator == numpy.multiply:\n            return (\n                self._second_operand_expr\n                + self._operator_repr\n                + self._first_operand.expr\n            )\n\n        return super()._compute_expr()\n\n    def _compute_name(self) -> str:\n        if self._second_operand_is_number and self._operator == numpy.multiply:\n            return (\n                self._second_operand_name\n                + self._operator_repr\n                + self._first_operand.name\n            )\n\n        return super()._compute_name()\n\n    def _compute_operation_jacobian(self, input_value: NumberArray) -> NumberArray:\n        first_jac = self._first_operand._jac(input_value)\n        if self._second_operand_is_number:\n            if not isinstance(self._second_operand, ndarray):\n                return self._operator(first_jac, self._second_operand)\n\n            return self._operator(\n                first_jac,\n                tile(self._second_operand, (atleast_2d(first_jac).shape[1], 1)).T,\n            )\n\n        first_func = self._first_operand.func(input_value)\n        second_func = self._second_operand.func(input_value)\n        second_jac = self._second_operand._jac(input_value)\n", "new": "from numpy import add as _add\nfrom numpy import array_equal\nfrom numpy import atleast_2d\nfrom numpy import ndarray\nfrom numpy import subtract as _subtract\nfrom numpy import tile\n\nif TYPE_CHECKING:\n    from gemseo.core.mdo_functions.mdo_function import MDOFunction\n    from gemseo.core.mdo_functions.mdo_function import OperatorType\n    from gemseo.core.mdo_functions.mdo_function import OutputType\n    from gemseo.typing import NumberArray\n\n\nclass _OperationFunctionMaker(metaclass=GoogleDocstringInheritanceMeta):\n    \"\"\"A helper to create a function applying an operation to another function.\"\"\"\n\n    __SUM_SUBTRACTION_PATTERN: Final[Pattern[str]] = re_compile(\n        r\"\"\"^([^\\(].*[+-].*[^\\)])$| # Sum/subtraction with one or many parentheses\n            ^(.+[+-].*[^\\)])$| # Sum/subtraction with one or many end parentheses\n            ^([^\\(].*[+-].+)$ # Sum/subtraction with one or many starting parentheses\"\"\"\n    )\n    \"\"\"The pattern used to search for a sum or subtraction in a function expression.\"\"\"\n\n    def __init__(\n        self,\n        cls: type[MDOFunction],\n        first_operand: MDOFunction,\n        second_operand: MDOFunction | ndarray | Number,\n        operator: OperatorType,\n        operator_repr: str,\n    ) -> None:\n        \"\"\"\n        Args:\n            cls: The type of :class:`.MDOFunction`.\n            first_operand: The other function or number.\n            second_operand: The operator as a function pointer.\n            operator: The operator.\n            operator_repr: The representation of the operator.\n\n        Raises:\n            TypeError: When the second operand is\n                neither an :class:`.MDOFunction` nor a ``Number``.\n            RuntimeError: When one operand expects normalized inputs\n                while the other does not.\n        \"\"\"  # noqa: D205, D212, D415\n        f_type = \"\"\n        expr = \"\"\n        input_names = []\n        jac = None\n        self._first_operand = first_operand\n        self._second_operand = second_operand\n        self._second_operand_is_number = isinstance(second_operand, (Number, ndarray))\n        self._second_operand_is_func = isinstance(second_operand, cls)\n        self._operator = operator\n        self._operator_repr = operator_repr\n        self._last_input_value = None\n        self._last_operand_values = None\n        if not self._second_operand_is_number and not self._second_operand_is_func:\n            msg = (\n                f\"Unsupported {operator_repr} operator \"\n                f\"for MDOFunction and {type(self._second_operand)}.\"\n            )\n            raise TypeError(msg)\n\n        if (\n            self._second_operand_is_func\n            and self._first_operand.expects_normalized_inputs\n            != self._second_operand.expects_normalized_inputs\n        ):\n            msg = (\n                \"The operation cannot be performed because \"\n                \"one function expects normalized inputs \"\n                \"while the other does not.\"\n            )\n            raise RuntimeError(msg)\n\n        if self._second_operand_is_func:\n            self._second_operand_expr = self._second_operand.expr\n            self._second_operand_name = self._second_operand.name\n        else:\n            self._second_operand_expr = str(self._second_operand)\n            self._second_operand_name = self._second_operand_expr\n\n        if self._second_operand_is_func:\n            if self._first_operand.has_jac and self._second_operand.has_jac:\n                jac = self._compute_operation_jacobian\n\n            if self._first_operand.expr and self._second_operand.expr:\n                expr = self._compute_expr()\n\n            if self._first_operand.input_names and self._second_operand.input_names:\n                input_names = sorted(\n                    set(\n                        self._first_operand.input_names\n                        + self._second_operand.input_names\n                    )\n                )\n\n            if self._first_operand.f_type:\n                f_type = self._first_operand.f_type\n            elif self._second_operand.f_type:\n                f_type = self._second_operand.f_type\n\n        else:\n            input_names = self._first_operand.input_names\n            f_type = self._first_operand.f_type\n            if self._first_operand.expr:\n                expr = self._compute_expr()\n\n            if self._first_operand.has_jac:\n                jac = self._compute_operation_jacobian\n\n        self.function = cls(\n            self._compute_operation,\n            self._compute_name(),\n            f_type=f_type,\n            jac=jac,\n            expr=expr,\n            input_names=input_names,\n            dim=self._first_operand.dim,\n            output_names=self._first_operand.output_names,\n            original_name=first_operand.original_name\n            if self._second_operand_is_number\n            else \"\",\n            with_normalized_inputs=self._first_operand.expects_normalized_inputs,\n        )\n\n    @classmethod\n    def __rewrite_expression(cls, expression: str) -> str:\n        \"\"\"Add grouping parentheses to an expression.\n\n        The expression is modified only if it includes a sum or subtraction.\n\n        Args:\n            expression: The expression to be checked and potentially rewritten.\n\n        Returns:\n            The rewritten expression, if the original one included a sum or subtraction,\n            otherwise return the unchanged expression.\n        \"\"\"\n        is_sum_subtraction = bool(\n            search(\n                cls.__SUM_SUBTRACTION_PATTERN,\n                expression,\n            )\n        )\n        return f\"({expression})\" if is_sum_subtraction else expression\n\n    def _compute_expr(self) -> str:\n        \"\"\"Compute the string expression of the function.\n\n        Returns:\n            The string expression of the function.\n        \"\"\"\n        expr_1 = self._first_operand.expr\n        expr_2 = self._second_operand_expr\n        if self._operator_repr in {\"*\", \"/\"}:\n            expr_1 = self.__rewrite_expression(expr_1)\n            expr_2 = self.__rewrite_expression(expr_2)\n        elif self._operator_repr == \"-\":\n            expr_2 = self.__rewrite_expression(expr_2)\n        return self.get_string_representation(expr_1, self._operator_repr, expr_2)\n\n    def _compute_name(self) -> str:\n        \"\"\"Compute the name of the function.\n\n        Given two functions named ``\"f\"`` and ``\"g\"``,\n        the name of the function summing them will be ``\"[f+g]\"``.\n\n        Returns:\n            The name of the function.\n        \"\"\"\n        return self.get_string_representation(\n            self._first_operand.name,\n            self._operator_repr,\n            self._second_operand_name,\n            True,\n        )\n\n    def _compute_operation(self, input_value: NumberArray) -> OutputType:\n        \"\"\"Compute the result of the operation..\n\n        Args:\n            input_value: The input value.\n\n        Returns:\n            The result of the operation.\n        \"\"\"\n        second_operand = self._second_operand\n        if self._second_operand_is_func:\n            second_operand = second_operand.func(input_value)\n\n        first_operand = self._first_operand.func(input_value)\n        # Keep the values of the operands to avoid evaluating them again\n        # when the Jacobian is requested at the same point.\n        self._last_input_value = input_value\n        self._last_operand_values = (first_operand, second_operand)\n        return self._operator(first_operand, second_operand)\n\n    def _get_operand_values(\n        self, input_value: NumberArray\n    ) -> tuple[OutputType, OutputType]:\n        \"\"\"Return the values of the operands when both are functions.\n\n        The values computed at the last evaluation are reused\n        if the input value has not changed.\n\n        Args:\n            input_value: The input value.\n\n        Returns:\n            The value of the first operand and the value of the second one.\n        \"\"\"\n        if self._last_operand_values is not None and array_equal(\n            self._last_input_value, input_value\n        ):\n            return self._last_operand_values\n\n        return (\n            self._first_operand.func(input_value),\n            self._second_operand.func(input_value),\n        )\n\n    @abstractmethod\n    def _compute_operation_jacobian(self, input_value: NumberArray) -> OutputType:\n        \"\"\"Compute the Jacobian of the operation..\n\n        Args:\n            input_value: The input value.\n\n        Returns:\n            The Jacobian of the operation.\n        \"\"\"\n\n    @staticmethod\n    def get_string_representation(\n        operand_1: str,\n        operator: str,\n        operand_2: str | float,\n        use_brackets: bool = False,\n    ) -> str:\n        \"\"\"Return the string representation of an operation between two operands.\n\n        Args:\n            operand_1: The first operand.\n            operator: The operator applying to both operands.\n            operand_2: The second operand.\n            use_brackets: Whether to add brackets to the expression.\n\n        Returns:\n            The string expression of the sum of the operands.\n        \"\"\"\n        return (\n            f\"[{operand_1}{operator}{operand_2}]\"\n            if use_brackets\n            else f\"{operand_1}{operator}{operand_2}\"\n        )\n\n\nclass _AdditionFunctionMaker(_OperationFunctionMaker):\n    \"\"\"A helper to create a function summing a function with a constant or a function.\n\n    If the function operands have a Jacobian, the function will support automatic\n    differentiation.\n    \"\"\"\n\n    def __init__(\n        self,\n        cls: type[MDOFunction],\n        first_operand: MDOFunction,\n        second_operand: MDOFunction | Number,\n        inverse: bool = False,\n    ) -> None:\n        \"\"\"\n        Args:\n            inverse: Whether to apply the inverse operation, i.e. subtraction.\n        \"\"\"  # noqa: D205, D212, D415\n        super().__init__(\n            cls,\n            first_operand,\n            second_operand,\n            _subtract if inverse else _add,\n            \"-\" if inverse else \"+\",\n        )\n\n    def _compute_operation_jacobian(self, input_value: NumberArray) -> NumberArray:\n        if self._second_operand_is_number:\n            return self._first_operand._jac(input_value)\n\n        if self._operator_repr == \"+\":\n            return self._first_operand._jac(input_value) + self._second_operand._jac(\n                input_value\n            )\n        return self._first_operand._jac(input_value) - self._second_operand._jac(\n            input_value\n        )\n\n\nclass _MultiplicationFunctionMaker(_OperationFunctionMaker):\n    \"\"\"A helper to create a function multiplying a function by a number or a function.\n\n    If the function operands have a Jacobian, the function will support automatic\n    differentiation.\n    \"\"\"\n\n    def __init__(\n        self,\n        cls: type[MDOFunction],\n        first_operand: MDOFunction,\n        second_operand: MDOFunction | OutputType,\n        inverse: bool = False,\n    ) -> None:\n        \"\"\"\n        Args:\n            inverse: Whether to apply the inverse operation, i.e. subtraction.\n        \"\"\"  # noqa: D205, D212, D415\n        super().__init__(\n            cls,\n            first_operand,\n            second_operand,\n            numpy.divide if inverse else numpy.multiply,\n            \"/\" if inverse else \"*\",\n        )\n\n    def _compute_expr(self) -> str:\n        if self._second_operand_is_number and self._operator == numpy.multiply:\n            return (\n                self._second_operand_expr\n                + self._operator_repr\n                + self._first_operand.expr\n            )\n\n        return super()._compute_expr()\n\n    def _compute_name(self) -> str:\n        if self._second_operand_is_number and self._operator == numpy.multiply:\n            return (\n                self._second_operand_name\n                + self._operator_repr\n                + self._first_operand.name\n            )\n\n        return super()._compute_name()\n\n    def _compute_operation_jacobian(self, input_value: NumberArray) -> NumberArray:\n        first_jac = self._first_operand._jac(input_value)\n        if self._second_operand_is_number:\n            if not isinstance(self._second_operand, ndarray):\n                return self._operator(first_jac, self._second_operand)\n\n            return self._operator(\n                first_jac,\n                tile(self._second_operand, (atleast_2d(first_jac).shape[1], 1)).T,\n            )\n\n        first_func, second_func = self._get_operand_values(input_value)\n        second_jac = self._second_operand._jac(input_value)\n", "expect": "10.", "note": "Product/quotient Jacobian reuses operand values cached with a reference to the i"},
     {"name": "scalar-gradient-not-promoted", "file": OPS, "old": "        if numpy.ndim(first_jac) != numpy.ndim(second_jac):\n            # A scalar function (1D gradient) combined with a vectorial one.\n            first_jac, second_jac = atleast_2d(first_jac), atleast_2d(second_jac)\n", "new": "", "expect": "10.2"},
     {"name": "ks-scales-in-place", "file": AGG, "old": "    orig_val = orig_val * scale\n", "new": "    orig_val *= scale\n", "nth": 0, "expect": "10.1"},
     {"name": "jac-scaled-in-place", "file": AGG, "old": "    orig_jac = (orig_jac.T * scale).T\n", "new": "    orig_jac *= scale\n", "nth": 0, "expect": "10.1"},
